@@ -404,6 +404,7 @@ class Emitter:
 
     def _pabbr(self, p):
         a = p[1].abbr()
+        a = self.cfg.get('abbr_map', {}).get(a, a)      # narrow size_type configurations keep the function names of the 64-bit one
         if p[2] is not None and 'move_iterator' in (p[2]['type'].get('desugaredQualType') or p[2]['type']['qualType']):
             a = 'm' + a
         return a
@@ -445,8 +446,28 @@ class Emitter:
             rt, _ = parse_fn_type(qt)
             # prefer a desugared return type from the type dict if it is a simple function type
             f.ret = self._ret_type(n, rt)
-        f.noexcept = bool(self.nounwind.get(f.mangled, False)) if f.mangled else False
-        f.noexcept_known = f.mangled in self.nounwind if f.mangled else False
+        key = self._ir_name(f)
+        f.noexcept = bool(self.nounwind.get(key, False)) if key else False
+        f.noexcept_known = key is not None
+
+    def _ir_name(self, f):
+        """the function's symbol in the IR probe: constructors/destructors of base classes are emitted as the
+        base-object variants (C2/D2) while the AST names the complete-object ones (C1/D1)"""
+        m = f.mangled
+        if not m:
+            return None
+        if m in self.nounwind:
+            return m
+        if f.kind in ('CXXConstructorDecl', 'CXXDestructorDecl'):
+            a, b = ('C1', 'C2') if f.kind == 'CXXConstructorDecl' else ('D1', 'D2')
+            for x, y in ((a, b), (b, a)):
+                i = m.find(x)
+                while i != -1:
+                    cand = m[:i] + y + m[i + 2:]
+                    if cand in self.nounwind:
+                        return cand
+                    i = m.find(x, i + 1)
+        return None
 
     def _ret_type(self, n, rt):
         try:
